@@ -32,7 +32,7 @@ from boolean.boolean import Expression
 from debian.copyright import Copyright
 from debian.copyright import Error as DebianError
 
-from . import _LICENSING, ReuseInfo, SourceType
+from . import _LICENSING, ReuseInfo, SourceType, _parse_expression
 from .covered_files import iter_files
 from .exceptions import (
     GlobalLicensingParseError,
@@ -213,7 +213,7 @@ def _str_to_set_of_expr(value: Any) -> set[Expression]:
     result = set()
     for expression in value:
         try:
-            result.add(_LICENSING.parse(expression))
+            result.add(_parse_expression(expression))
         # Degenerate input such as '()' or a non-string makes the expression
         # parser raise other errors than its own; they are parse errors too.
         except Exception as error:
@@ -290,7 +290,7 @@ class ReuseDep5(GlobalLicensing):
         for expression in expressions:
             try:
                 # An empty synopsis parses to None.
-                if _LICENSING.parse(expression) is None:
+                if _parse_expression(expression) is None:
                     raise ValueError("empty License field")
             except Exception as error:
                 raise GlobalLicensingParseValueError(
